@@ -424,6 +424,9 @@ META = (META[0] + ' PREVBOUND (a loop that stops at `!= prev(last)` knows the ra
 META = (META[0] + ' LITMASK over _bit/ (no mask or power of two is built by shifting an int / unsigned literal by a run-time count: for a 64-bit argument a count of 32 or more is undefined, so constant evaluation fails and run time wraps; control in fixtures/arith_pos.hpp).', META[1])
 
 
+META = (META[0] + ' SLOTS-D / SLOTS-C / SLOTS-G (shared with C03: the destroyed range is exactly the removed tail; gained slots are constructed).', META[1])
+
+
 def run(chk, tier):
     db = D.load("plain")
     with open(c05.SPEC) as fh:
@@ -509,6 +512,12 @@ def run(chk, tier):
     _AR.positive_controls(chk, D, ("NEGMIN",))
     from . import c17 as _c17
     _c17.litmask_rule(chk, D.load('checks'), ('_bit/',))      # LITMASK (zero expected on the library)
+    # SLOTS-D / SLOTS-C / SLOTS-G (shared with C03): an element that stays inside [begin(), end()) is not destroyed, a slot that
+    # enters it holds a constructed object - otherwise the next access reads an object outside its lifetime
+    from ..rules import slots as _SLD
+    _SLD.check(chk, D.load("plain"), ["static_vector", "inplace_vector"], lambda r: ("trivial_storage" not in r) or ("non_trivial" in r), only=("D", "C", "G"))
+    if chk.rule_instances.get("SLOTS-D", 0) < 2:
+        chk.analysis_broken("SLOTS-D: fewer than 2 shrinking size stores found in the vectors (floor 2)")
     # ---- PRECALL: valid calls never violate the precondition of a member they call internally
     if c05.precall(chk, D.load("checks")) < 40:
         chk.analysis_broken("PRECALL: fewer than 40 container operations with a contract-table entry found")
